@@ -38,7 +38,7 @@ for d in /verif/seeded/${id}_*/; do
     (cd "$tmp/tree" && git apply -R "$d/patch.diff" 2>/dev/null)
   else skipped=$((skipped+1)); lines="$lines\nSELFTEST seed $name: skipped (does not apply to / build on the current tree)"; fi
 done
-for d in /verif/refactors/r${id}_*/ /verif/refactors/h${id}_*/ /verif/refactors/g${id}_*/ /verif/refactors/k${id}_*/ /verif/refactors/m${id}_*/ /verif/refactors/n${id}_*/ /verif/refactors/p${id}_*/ /verif/refactors/q${id}_*/; do
+for d in /verif/refactors/r${id}_*/ /verif/refactors/h${id}_*/ /verif/refactors/g${id}_*/ /verif/refactors/k${id}_*/ /verif/refactors/m${id}_*/ /verif/refactors/n${id}_*/ /verif/refactors/p${id}_*/ /verif/refactors/q${id}_*/ /verif/refactors/t${id}_*/; do
   [ -f "$d/patch.diff" ] || continue
   name=$(basename "$d")
   if try "$d/patch.diff"; then
